@@ -319,7 +319,11 @@ class ExcelInPython:
             return isinstance(value, (float, int))
 
         for row in table_array:
-            if isinstance(row[0], self.EmptyCell) or not isinstance(row[0], lookup_value_type):
+            # a blank cell is no key (a table given as whole columns ends with blank rows)
+            if isinstance(row[0], self.EmptyCell):
+                continue
+
+            if not isinstance(row[0], lookup_value_type):
                 if not is_number(row[0]) or not is_number(lookup_value):
                     continue
 
